@@ -37,6 +37,7 @@ func main() {
 	maxMut := flag.Int("mutants", 320, "thorough tier: upper bound on statement-level variants analysed")
 	var overlays multi
 	flag.Var(&overlays, "overlay", "file=replacement: analyse the tree with <file> replaced by the contents of <replacement> (in memory)")
+	sweep := flag.String("sweep", "", "development: statement-level variants of every function of this module package (short name), judged by all rule sets; result in replay/sweep-<pkg>-mutants.json")
 	genAnchors := flag.Bool("gen-anchors", false, "development: rewrite internal/load/anchors.json from the rules' sources and the current tree")
 	flag.Parse()
 	report.DryRun = *dry
@@ -89,6 +90,11 @@ func main() {
 			fmt.Println(err)
 			os.Exit(2)
 		}
+		return
+	}
+	if *sweep != "" {
+		self, _ := os.Executable()
+		sens.Sweep(self, *repo, *verif, p, *sweep, 10)
 		return
 	}
 	ids := []string{*prop}
